@@ -1,5 +1,6 @@
 import IweModel.Props.C15
 #print axioms Iwe.Path.resolve_relative
+#print axioms Iwe.Path.completion_link_resolves
 #print axioms Iwe.Path.resolve_relative_md
 #print axioms Iwe.Path.relative_resolve_equiv
 #print axioms Iwe.Path.climbs_above_root
